@@ -18,6 +18,7 @@ from yabgp import config as yconfig  # noqa: E402
 from yabgp.handler import BaseHandler  # noqa: E402
 from yabgp.handler.default_handler import DefaultHandler  # noqa: E402
 from yabgp.core.factory import BGPPeering  # noqa: E402
+from yabgp import agent as yagent  # noqa: E402  (start-up code; logging stays disabled by env.setup)
 from yabgp.common import constants as C  # noqa: E402
 
 env.patch_clock()
@@ -138,20 +139,20 @@ class World(object):
         self.local_as, self.remote_as = local_as, remote_as
         self.peer_ip = remote_addr
         yconfig.get_bgp_config()
+        # the size limit of a log file: the agent's check_msg_config() turns the configured megabytes into bytes and leaves
+        # the result as a plain attribute on the group object; a harness that wants a small limit sets that attribute itself
+        CONF.message.__dict__.pop('write_msg_max_size', None)
+        if handler == 'default':
+            yagent.check_msg_config()
         if max_file_size is not None:
-            # what agent.check_msg_config does with MB: a plain attribute on the group object
             CONF.message.write_msg_max_size = max_file_size
         self.handler = DefaultHandler() if handler == 'default' else RecHandler()
-        self.handler.init()
+        # the agent's own start-up code (yabgp/agent/__init__.py) on the simulated reactor: handler.init(), the peering,
+        # the REST site (a stub here) and the delayed first automatic start
+        yagent.prepare_twisted_service(self.handler)
         rc = CONF.bgp.running_config
-        afi_safi_list = [C.AFI_SAFI_STR_DICT[a] for a in rc['afi_safi']]
-        rc['afi_safi'] = afi_safi_list
-        rc['capability']['local']['afi_safi'] = afi_safi_list
-        self.peering = BGPPeering(myasn=rc['local_as'], myaddr=rc['local_addr'], peerasn=rc['remote_as'],
-                                  peeraddr=rc['remote_addr'], afisafi=rc['afi_safi'], md5=rc['md5'],
-                                  handler=self.handler)
-        rc['factory'] = self.peering
-        self.boot_call = reactor.callLater(CONF.time.bgp_peer_call_later_time, self.peering.automatic_start)
+        self.peering = rc['factory']
+        self.boot_call = [c for c in reactor._calls if c.name == 'automatic_start'][-1]
         self.client = app.test_client()
         self.user = CONF.rest.username
         self.password = CONF.rest.password
